@@ -26,7 +26,12 @@ def _loops(body):
     return [s for s in au.walk_stmts(body) if isinstance(s, (ast.For, ast.While))]
 
 
-@analysis("minorgrid", ["C01.g", "C13.e"])
+rule("C13.k", "a full-grid series taken from the price data is brought to the asset's grid by averaging over the fine steps of each coarse "
+              "interval when the asset has a coarser frequency (I_minor_in_major), not only by picking restricted.I (the first fine step of "
+              "each interval) - prices and limits alike", floor=3)
+
+
+@analysis("minorgrid", ["C01.g", "C13.e", "C13.k"])
 def run(ctx):
     p = ctx.p
     n_sites = 0
@@ -115,3 +120,38 @@ def run(ctx):
                    "step the rate of a coarse asset is not constant on grids whose steps differ in length (DST switch, months)", node=fac[0])
         else:
             ctx.ob("C13.e", helper, "weight formula", None, "no ratio of two grid arrays found in the helper (rewritten?)")
+
+    # ================================================================= C13.k series restricted to the asset's grid
+    n_k = 0
+    for fn in sorted(p.all_functions(), key=lambda f: f.qualname):
+        if fn.parent is not None or fn.cls is None or not p.is_subclass(fn.cls, "Asset"):
+            continue
+        org = None
+        for st in au.walk_stmts(fn.body):
+            if not isinstance(st, ast.Assign):
+                continue
+            v = st.value
+            if not (isinstance(v, ast.Subscript) and isinstance(v.slice, ast.Name)):
+                continue
+            sel = ctx.resolve(fn, v.slice, st)
+            if not (isinstance(sel, ast.Attribute) and sel.attr == "I" and "restricted" in au.U(sel)):
+                continue
+            org = org or ctx.origins(fn, values_only=True)
+            from_prices = any(isinstance(x, ast.Subscript) and isinstance(x.value, ast.Name) and x.value.id == "prices" for x in org.nodes(v.value, st)) or \
+                any(isinstance(x, ast.Name) and x.id == "prices" for x in org.nodes(v.value, st))
+            if not from_prices:
+                continue
+            n_k += 1
+            # the coarse alternative: an enclosing / sibling branch that tests for and uses I_minor_in_major
+            paired = False
+            for a in p.ancestors(st):
+                if isinstance(a, ast.If) and "I_minor_in_major" in au.U(a.test):
+                    paired = True
+                if a is fn.node:
+                    break
+            ctx.ob("C13.k", fn, au.short(st, 70), paired,
+                   "the series is restricted with restricted.I only; for an asset with a coarser frequency restricted.I holds the first fine step "
+                   "of each coarse interval, so the value of that one step stands for the whole interval instead of the average over its fine "
+                   "steps (a capacity series that is 0 in the first half of each day and 10 in the second gives the daily asset capacity 0)",
+                   node=st)
+    ctx.require(n_k >= 3, "fewer than 3 price series restricted to the asset's grid found", rules=["C13.k"])
